@@ -108,6 +108,11 @@ func errClass(err error) string {
 		}
 		return fmt.Sprintf("%s@%d%q", cls, se.ByteOffset, se.JSONPointer)
 	}
+	var sem *json.SemanticError
+	if errors.As(err, &sem) {
+		// "the same final error": a conversion error carries the position of the value it is about
+		return fmt.Sprintf("semantic@%d%q:%v", sem.ByteOffset, sem.JSONPointer, sem.GoType)
+	}
 	if errors.Is(err, errTransient) {
 		return "transient"
 	}
@@ -487,8 +492,23 @@ type tStruct2 struct {
 	Rest map[string]any `json:",embed"`
 }
 
+// tStruct3 has fields that are refused before their value is read (unsupported kinds) and fields whose
+// values are refused after reading (kind mismatches): the position in the error must not depend on chunking.
+type tStruct3 struct {
+	A    chan int       `json:"a"`
+	Name func()         `json:"name"`
+	B    int            `json:"b"`
+	C    []bool         `json:"c"`
+	D    map[string]int `json:"d"`
+	Rest map[string]int `json:",embed"`
+}
+
 func newTarget(kind string) any {
 	switch kind {
+	case "struct3":
+		return new(tStruct3)
+	case "ints":
+		return new([]int8)
 	case "struct2":
 		return new(tStruct2)
 	case "structs":
@@ -792,7 +812,7 @@ func generate(w *run.W) {
 			}
 		}
 		for k := 0; k < 6; k++ {
-			w.Do("unmarshal", &umArgs{Input: in, Target: []string{"any", "map", "struct", "slice", "struct", "struct2", "structs"}[r.IntN(7)], Seed: r.Uint64(), MaxN: 1 + r.IntN(40), ZeroP: r.IntN(10), EOFTog: r.IntN(2) == 0, Buffer: r.IntN(5) == 0})
+			w.Do("unmarshal", &umArgs{Input: in, Target: []string{"any", "map", "struct", "slice", "struct", "struct2", "structs", "struct3", "struct3", "ints"}[r.IntN(10)], Seed: r.Uint64(), MaxN: 1 + r.IntN(40), ZeroP: r.IntN(10), EOFTog: r.IntN(2) == 0, Buffer: r.IntN(5) == 0})
 		}
 	}
 }
